@@ -70,3 +70,7 @@ chk("C12", "model_checking",
     "External engines (LAMMPS, CP2K, GROMACS) built from the example inputs run against fake programs with a free-flight toy dynamics and per-frame boxes: every schedule of (one frame | two frames | stay | finish | die with rc != 0) at every poll (LAMMPS complete; CP2K with separate pos/vel progress and GROMACS up to a deviation bound in the quick tier), both time directions; in-process engines (TurtleMD, ASE Langevin/VelocityVerlet, ballistic file plug-in) over a grid of subcycles x maxlen x interfaces x direction x start points. Oracle: stored order of frame k = order recomputed from frame k as written / as referenced, stop rule, success flag, frame references, program stopped, failure raises unless the complete path was delivered, deterministic integrators retrace.",
     "Trusted: fake writers emit the real programs' formats; toy dynamics (free flight) stands for MD; frames of in-process engines are read back through the engine's own codecs. AMS and GROMACS' own velocity generation are not covered.",
     "exhaustive schedule enumeration of fake external processes against the real engines", "DESIGN.md 4/C12")
+chk("C16", "exploration",
+    "For CP2K, LAMMPS, TurtleMD, GROMACS (infretis_genvel) and ASE, at T in {1, 300} and zero_momentum on/off, the engine's stream is a scripted generator that returns chosen z-arrays (all 4^6 arrays over {-1,0,1,2} for two atoms in the thorough tier): the written velocity must satisfy m v^2 = z^2 k_B T component by component in SI units with constants from an independent table, positions/box unchanged, source frame object and file untouched (also through prepare_shooting_point), total momentum zero and relative velocities preserved with zero_momentum, reported kin_new/dek equal to a recomputation from the file, same stream => same file.",
+    "Trusted: the statistical clause is decided as the exact stream-to-file map (Gaussianity follows from a standard normal stream); masses from the engines' tables; GROMACS' own velocity generation and AMS not covered.",
+    "exhaustive enumeration of scripted draws (exact map instead of sampled moments)", "DESIGN.md 4/C16")
